@@ -67,4 +67,11 @@ case("C08.R2/BasicStructure.encode_into_pdu/oversize",
      lambda: (len(rq.encode(s={"a": 1, "b": 2})), rq.get_static_bit_length()),
      expect=lambda r: r[0] * 8 != r[1])
 
+# C04.R2: bits outside BIT-MASK are dropped without an error
+MK = dop("masked", slt(8, mask=0x0F))
+rq = req("masked", [vp("v", MK)])
+link(MK, rq)
+case("C04.R2/StandardLengthType.__apply_mask/silent-masking",
+     lambda: rq.decode(rq.encode(v=0xFF))["v"], expect=lambda v: v != 0xFF)
+
 finish()
